@@ -35,8 +35,9 @@ CHECKS = {
  'C10': dict(
    text='Proof: C10_routes - for every pair of core formats, all 10 destination mode pairs, arrays of any length and every route class (ndarray routes resize / like() / equal; Fxp-input routes '
         'constructor / like= / set_val / call / indexed assignment with the source vdtype), the model of utils.scale_raw + set_val(raw=True) stores the exact source value quantized into the destination with the flags of that '
-        'quantization; C10_chain lifts it to conversion sequences of any length by induction; C10_preserves_representable. One corner (float source vdtype, positive shift, rescaled code >= 2^53, i.e. an overflowing value) '
-        'is outside the theorem and rests on the correspondence run. Tie: 9 concrete routes x format pairs x modes x shapes x source construction routes x chains, against Spec and the model.',
+        'quantization, whatever the value type of the source (no side condition left); C10_chain lifts it to conversion sequences of any length by induction; C10_preserves_representable; C10_wide_codes_exact / '
+        'C10_fewer_fraction_bits_any_source: sources of ANY width whose codes exceed 53 bits travel as exact rationals and are rounded once (codes and all three flags, destination of any width). '
+        'Tie: 9 concrete routes x format pairs x modes x shapes x source construction routes x chains, codes at the 2^62..2^65 rescaling boundary, against Spec and the model.',
    design='7/C10', technique='Coq proof of the conversion model = quantizer (+ chain induction) + differential correspondence'),
 
  'C07': dict(
@@ -48,7 +49,8 @@ CHECKS = {
  'C19': dict(
    text='Proof: the C07 theorems carry no width hypothesis (C19_arith_any_width), because C19_guard_sound shows that whenever functions._raw_cast leaves the operands in int64 / uint64 / float64 every intermediate '
         'is exact (|z|<2^63, reinterpretable uint64, <2^53) and otherwise Python integers are used; C19_store_python_int: a Python integer of ANY size stored into ANY format with n_frac>=0 is OVERFLOW(v*2^n_frac) with exact flags '
-        '(model of the _use_pyint decision of set_val). Tie: Python integers up to 2^1000 by four store routes; operand words 2..70 with results up to 141 bits, extremes / near extremes / random, 3 call routes.',
+        '(model of the _use_pyint decision of set_val); C19_store_wide_ints_negative_nfrac: into a NEGATIVE fraction length, integers beyond 53 bits are scaled by an exact rational factor (codes and three flags, any word). '
+        'Tie: Python integers up to 2^1000 by four store routes, n_frac 0..n_word+3 and -8..-1, against Spec and the model; operand words 2..70 with results up to 141 bits, extremes / near extremes / random, 3 call routes.',
    design='7/C19', technique='Coq proof of guard soundness at every width + differential correspondence'),
 
  'C08': dict(
